@@ -11,12 +11,25 @@ from the DBus specification, never looking at txdbus).
   S4 property oracle  implementation accepts  <=>  Python grammar accepts; every rejection is a
                       txdbus.error.MarshallingError; a message constructor given a name the
                       grammar rejects must raise.
+
+Histories (streams role-history, neighbour-history; they run FIRST, on strings nobody has validated yet):
+the same two judgements applied to LATER uses of one string inside one process - a string legal in one role
+goes through the legal role, every illegal role (the five validators and the eleven (class, field) roles of
+the four message constructors) and the legal role again, in several orders, each order on a fresh string;
+strings no role accepts are presented twice to every role; 254/255/256/257 neighbours and one-element
+extensions of a legal name follow each other.  The model is a pure function of the string, so every step is
+compared with the same driver answer; the oracle is the grammar, step by step.  A violation found at step k
+is stored with steps 0..k as its replay input.
 """
 import itertools
+import json
+import os
 import string
+import subprocess
+import sys
 
 STREAMS = ['validators-exhaustive', 'validators-random', 'validators-boundary',
-           'grammar-lean-vs-python', 'message-constructors']
+           'grammar-lean-vs-python', 'message-constructors', 'role-history', 'neighbour-history']
 THEOREMS = ['validateObjectPath_iff_grammar', 'validateInterfaceName_iff_grammar',
             'validateErrorName_iff_grammar', 'validateBusName_iff_grammar',
             'validateMemberName_iff_grammar', 'validators_reject_with_marshallingError',
@@ -40,7 +53,9 @@ ASSUMPTIONS = [
 ]
 RULE = ('validators-exhaustive: every string up to length 4 (quick) / 6 (thorough) over one representative per '
         'character class (letter, digit, underscore, dot, hyphen, colon, slash, non-ASCII, space); random: mutated '
-        'valid names, boundary lengths, non-ASCII digits.  distinct = distinct (stream, string / constructor call); '
+        'valid names, boundary lengths, non-ASCII digits.  role-history / neighbour-history: sequences of validator '
+        'calls and constructor calls over one fresh string (and its neighbours) per sequence, one case = one step.  '
+        'distinct = distinct (stream, string / constructor call); '
         'non-trivial = every character lies in [A-Za-z0-9_.:/-], i.e. the string is not rejected by the character '
         'class alone in every validator')
 
@@ -169,8 +184,34 @@ def accept_key(v, s):
     return k + '-accepts-nongrammar'
 
 
-def judge_string(ctx, marshal, stream, s, mline, order=VALIDATORS):
-    """One string against the five validators (called in `order`): S3 and S4."""
+def _viol(ctx, key, what, inp=None, observed=None, expected=None):
+    """ctx.violation + remember, per key, the smallest HISTORY that showed it (see settle)"""
+    ctx.violation(key, what, inp=inp, observed=observed, expected=expected)
+    if isinstance(inp, dict) and inp.get('kind') == 'history':
+        hist = ctx.__dict__.setdefault('_c18_hist', {})
+        old = hist.get(key)
+        if old is None or len(inp['steps']) < len(old['input']['steps']):
+            hist[key] = {'input': inp, 'what': what, 'observed': observed, 'expected': expected}
+
+
+def oracle_validator(ctx, v, s, r, g, inp):
+    """S4 for ONE validator call: the implementation alone against the grammar."""
+    if r == 'accept' and not g:
+        _viol(ctx, accept_key(v, s), '%s accepts %r, which the DBus grammar rejects' % (FUNC[v], s),
+                      inp=inp, observed='accept', expected='MarshallingError')
+    elif r != 'accept' and g:
+        _viol(ctx, KEYNAME[v] + '-rejects-grammatical',
+                      '%s rejects %r (%s), which the DBus grammar allows' % (FUNC[v], s, r),
+                      inp=inp, observed=r, expected='accept')
+    elif r not in ('accept', 'MarshallingError'):
+        _viol(ctx, KEYNAME[v] + '-wrong-exception-type',
+                      '%s rejects %r with %s instead of MarshallingError' % (FUNC[v], s, r),
+                      inp=inp, observed=r, expected='MarshallingError')
+
+
+def judge_string(ctx, marshal, stream, s, mline, order=VALIDATORS, earlier=()):
+    """One string against the five validators (called in `order`): S3 and S4.  `earlier`: the validators this
+    string went through before in this process (kept in the replay input: a later use may depend on them)."""
     impl = {v: observe(marshal, v, s) for v in order}
     gram = {v: G[v](s) for v in VALIDATORS}
     ctx.impl_trace(5)
@@ -188,24 +229,16 @@ def judge_string(ctx, marshal, stream, s, mline, order=VALIDATORS):
                 if (mg == '1') != gram[v]:
                     gbad.append({'grammar': v, 'lean': mg, 'python': gram[v]})
             if bad:
-                ctx.disagree(stream, show(s), bad, impl)
+                ctx.disagree(stream, dict(show(s), order=list(earlier) + list(order)), bad, impl)
             if gbad:
                 ctx.disagree('grammar-lean-vs-python', show(s), gbad, gram)
     # S4: the implementation alone against the grammar
-    for v in VALIDATORS:
-        r = impl[v]
+    for k, v in enumerate(order):
         inp = {'kind': 'validator', 'validator': FUNC[v], 's': s}
-        if r == 'accept' and not gram[v]:
-            ctx.violation(accept_key(v, s), '%s accepts %r, which the DBus grammar rejects' % (FUNC[v], s),
-                          inp=inp, observed='accept', expected='MarshallingError')
-        elif r != 'accept' and gram[v]:
-            ctx.violation(KEYNAME[v] + '-rejects-grammatical',
-                          '%s rejects %r (%s), which the DBus grammar allows' % (FUNC[v], s, r),
-                          inp=inp, observed=r, expected='accept')
-        elif r not in ('accept', 'MarshallingError'):
-            ctx.violation(KEYNAME[v] + '-wrong-exception-type',
-                          '%s rejects %r with %s instead of MarshallingError' % (FUNC[v], s, r),
-                          inp=inp, observed=r, expected='MarshallingError')
+        calls = list(earlier) + list(order[:k])
+        if calls:
+            inp['calls'] = calls            # what this string went through before the judged call
+        oracle_validator(ctx, v, s, impl[v], gram[v], inp)
     return impl, gram
 
 
@@ -213,6 +246,7 @@ def run_strings(ctx, marshal, stream, strings):
     strings = list(strings)
     out = ctx.model(['v ' + enc(s) for s in strings])
     again = []
+    cap = 20000 if ctx.tier == 'quick' and not ctx.widen else 700000
     for i, s in enumerate(strings):
         order = list(VALIDATORS)
         ctx.rng.shuffle(order)              # the order in which the five validators see a string varies
@@ -224,12 +258,13 @@ def run_strings(ctx, marshal, stream, strings):
         ctx.stat('%s:len=%s' % (stream, len(s) if len(s) <= 8 else ('9-254' if len(s) < 255 else ('255' if len(s) == 255 else '256+'))))
         acc = [v for v in VALIDATORS if impl[v] == 'accept']
         ctx.stat('%s:accepted-by=%s' % (stream, '+'.join(acc) if acc else 'none'))
-        if acc and len(again) < 20000:
+        if len(again) < cap:
             again.append((i, s, order))
-    # second pass over the strings somebody accepted, validators in the opposite order: an answer that
-    # depends on what was validated before (a memo shared between validators) is wrong on one of the two calls
+    # second pass over EVERY string (also those all five refused: a refusal that leaves a trace - a name noted
+    # before its check raised - shows on the second presentation only), validators in the opposite order: an
+    # answer that depends on what was validated before is wrong on one of the two calls
     for i, s, order in again:
-        judge_string(ctx, marshal, stream, s, out[i] if out is not None else None, order[::-1])
+        judge_string(ctx, marshal, stream, s, out[i] if out is not None else None, order[::-1], earlier=order)
     ctx.stat(stream + ':second-pass', len(again))
     ctx.case('grammar-lean-vs-python', n=len(strings) if out is not None else 0)
 
@@ -468,13 +503,21 @@ def msg_line(cls, a):
     return 'sig %s %s %s %s' % (enc(a['path']), enc(a['member']), enc(a['interface']), enc_opt(a['destination']))
 
 
-def judge_message(ctx, marshal, message, cls, args, mline, extra=None):
-    stream = 'message-constructors'
-    r, m = construct(message, cls, args, extra)
+def judge_message(ctx, marshal, message, cls, args, mline, extra=None, stream='message-constructors', inp=None,
+                  flav=None):
+    """`inp`: the replay input when the call is a step of a history (then the whole history up to this step);
+    `flav`: {field: 'ObjectPath' | 'Signature' | 'sub'} - the argument is passed as an instance of that str subclass."""
+    real = args
+    if flav:
+        real = {f: (flavoured(marshal, x, flav.get(f)) if x is not None else None) for f, x in args.items()}
+    r, m = construct(message, cls, real, extra)
     ctx.impl_trace()
-    inp = {'kind': 'message', 'cls': cls, 'args': args}
-    if extra:
-        inp['extra'] = extra
+    if inp is None:
+        inp = {'kind': 'message', 'cls': cls, 'args': args}
+        if extra:
+            inp['extra'] = extra
+        if flav:
+            inp['as'] = flav
     if mline is not None:
         tok = mline.split()
         if len(tok) != 2 or tok[0] != r or tok[1] != r:
@@ -495,13 +538,13 @@ def judge_message(ctx, marshal, message, cls, args, mline, extra=None):
                 key = accept_key(kind, val)          # the validator's own defect, seen through the constructor
             else:
                 key = 'message-%s-not-validated' % f
-            ctx.violation(key, '%s constructed and carries %s=%r, which the DBus grammar rejects (validator alone: %s)'
+            _viol(ctx, key, '%s constructed and carries %s=%r, which the DBus grammar rejects (validator alone: %s)'
                           % (cls, f, val, vres), inp=inp, observed='constructed', expected='MarshallingError')
         have = dict(carried)
         for f in FIELDS[cls]:
             if args.get(f) is not None and have.get(f) != args[f]:
                 ctx.stat('message:argument-not-carried:%s' % f)
-    ctx.stat('message:%s:%s' % (cls, r))
+    ctx.stat('%s:%s:%s' % ('message' if stream == 'message-constructors' else stream, cls, r))
     return r
 
 
@@ -565,6 +608,344 @@ def probe_none_path(ctx, message):
         ctx.note('observed-not-flagged: %s(path=None) -> %s' % (cls, r))
 
 
+# ------------------------------------------------------------------ histories: LATER uses of one string in one process
+class _Sub(str):
+    """a str subclass that overrides nothing (like marshal.ObjectPath / marshal.Signature)"""
+
+
+FLAVOURS = ['ObjectPath', 'Signature', 'sub']
+
+
+def flavoured(marshal, s, fl):
+    """the string `s` as an instance of a plain str subclass (equal to s, same hash, another class)"""
+    if not fl:
+        return s
+    if fl == 'sub':
+        return _Sub(s)
+    return getattr(marshal, fl)(s)
+
+
+_TOKENS = itertools.count()
+
+
+def fresh():
+    """a name element nobody has used before in this process (a letter, then digits)"""
+    return 'h%d' % next(_TOKENS)
+
+
+# one string per family and token; which roles accept it is computed from the grammar G, never listed here
+FAMILIES = [
+    ('member', lambda t: 'M' + t),
+    ('member-underscore', lambda t: '_' + t + '_9'),
+    ('dotted', lambda t: 'a.' + t),
+    ('dotted-deep', lambda t: 'org.' + t + '.C_9'),
+    ('bus-hyphen', lambda t: 'a-' + t + '.b'),
+    ('bus-hyphen-first', lambda t: '-' + t + '.-'),
+    ('bus-unique', lambda t: ':1.' + t),
+    ('bus-unique-digits', lambda t: ':' + t + '.42'),
+    ('path', lambda t: '/a/' + t),
+    ('path-digit-element', lambda t: '/1/' + t),
+    ('path-one-element', lambda t: '/' + t),
+    ('rejected-double-dot', lambda t: 'a..' + t),
+    ('rejected-trailing-dot', lambda t: 'a.' + t + '.'),
+    ('rejected-space', lambda t: 'a.' + t + ' x'),
+    ('rejected-digit-first', lambda t: '1' + t + '.a'),
+    ('rejected-dot-digit-hyphen', lambda t: 'a-' + t + '.1b'),
+    ('rejected-unique-one-element', lambda t: ':' + t),
+    ('rejected-unique-empty-element', lambda t: ':.' + t),
+    ('rejected-inner-colon', lambda t: 'a:' + t + '.b'),
+    ('rejected-trailing-slash', lambda t: '/' + t + '/'),
+    ('rejected-double-slash', lambda t: '/a//' + t),
+    ('rejected-hyphen-one-element', lambda t: t + '-'),
+    ('rejected-nonascii', lambda t: 'a.' + t + 'é'),
+]
+CTOR_ROLES = [(cls, f) for cls, fields in FIELDS.items() for f in fields]      # the eleven (class, field) roles
+
+
+def legal(s):
+    return [v for v in VALIDATORS if G[v](s)]
+
+
+def vstep(role, s, fl=None):
+    st = {'do': 'v', 'role': role, 's': s}
+    if fl:
+        st['as'] = fl
+    return st
+
+
+def mstep(cls, fields, s, extra=None, fl=None):
+    """constructor call with `s` in the given field(s), everything else valid"""
+    a = dict(DEFAULTS[cls])
+    for f in ([fields] if isinstance(fields, str) else fields):
+        a[f] = s
+    st = {'do': 'm', 'cls': cls, 'args': a}
+    if extra:
+        st['extra'] = extra
+    if fl:
+        st['as'] = {f: cfl(f, fl) for f in ([fields] if isinstance(fields, str) else fields)}
+    return st
+
+
+def cfl(f, fl):
+    """the str subclass a constructor argument is passed as: the header fields travel as variants whose type is
+    inferred from the argument's class, so ObjectPath / Signature instances in a name field change the header
+    type (C03's matter) - only the path may be an ObjectPath, everything else a plain subclass"""
+    if not fl:
+        return None
+    return 'ObjectPath' if (fl == 'ObjectPath' and f == 'path') else 'sub'
+
+
+def croles(kinds):
+    return [(c, f) for c, f in CTOR_ROLES if FIELD_KIND[f] in kinds]
+
+
+def role_histories():
+    """Deterministic role rotations; every history works on a string of its own."""
+    out = []
+
+    def add(shape, fam, steps):
+        out.append({'shape': shape, 'family': fam, 'steps': steps})
+
+    for fam, mk in FAMILIES:
+        L = legal(mk('h'))
+        I = [v for v in VALIDATORS if v not in L]
+        CL, CI = croles(L), croles(I)
+        s = mk(fresh())
+        add('legal-illegal-legal', fam, [vstep(v, s) for v in L + I + L + I])
+        s = mk(fresh())
+        add('illegal-legal-illegal', fam, [vstep(v, s) for v in I + L + I + L])
+        for k in range(len(VALIDATORS)):
+            s = mk(fresh())
+            order = VALIDATORS[k:] + VALIDATORS[:k]
+            add('rotation', fam, [vstep(v, s) for v in order + order])
+        s = mk(fresh())
+        add('ctor-legal-first', fam, [mstep(c, f, s) for c, f in CL + CI + CL + CI] + [vstep(v, s) for v in VALIDATORS])
+        s = mk(fresh())
+        add('ctor-illegal-first', fam, [mstep(c, f, s) for c, f in CI + CL + CI + CL] + [vstep(v, s) for v in VALIDATORS])
+        s = mk(fresh())
+        add('validator-then-ctor', fam, [vstep(v, s) for v in L] + [mstep(c, f, s) for c, f in CI + CL]
+            + [vstep(v, s) for v in I] + [mstep(c, f, s) for c, f in CI + CL])
+        s = mk(fresh())
+        add('illegal-validator-then-ctor', fam, [vstep(v, s) for v in I] + [mstep(c, f, s) for c, f in CL + CI]
+            + [vstep(v, s) for v in L] + [mstep(c, f, s) for c, f in CL + CI])
+        for k, (c, f) in enumerate(CTOR_ROLES):
+            s = mk(fresh())
+            rest = CTOR_ROLES[k + 1:] + CTOR_ROLES[:k]
+            x = EXTRAS[k % len(EXTRAS)] or None
+            add('ctor-rotation', fam, [mstep(c, f, s, x)] + [mstep(c2, f2, s, x) for c2, f2 in rest] + [mstep(c, f, s)])
+        for cls, fields in FIELDS.items():          # ONE call carrying the string in two fields
+            for f1, f2 in itertools.combinations(fields, 2):
+                s = mk(fresh())
+                add('one-call-two-fields', fam, [mstep(cls, [f1, f2], s)] + [vstep(v, s) for v in VALIDATORS]
+                    + [mstep(cls, [f1, f2], s)])
+        for fl in FLAVOURS:
+            s = mk(fresh())
+            add('subclass-first', fam, [vstep(v, s, fl) for v in VALIDATORS] + [vstep(v, s) for v in VALIDATORS]
+                + [mstep(c, f, s, fl=fl) for c, f in CTOR_ROLES] + [mstep(c, f, s) for c, f in CTOR_ROLES])
+            s = mk(fresh())
+            add('subclass-later', fam, [vstep(v, s) for v in VALIDATORS] + [vstep(v, s, fl) for v in VALIDATORS]
+                + [mstep(c, f, s) for c, f in CTOR_ROLES] + [mstep(c, f, s, fl=fl) for c, f in CTOR_ROLES])
+    return out
+
+
+STYLES = {'path': ['one'], 'member': ['one'], 'iface': ['two', 'many'], 'error': ['two', 'many'],
+          'bus': ['two', 'many', 'unique']}
+INTEREST = {'path': ['path'], 'member': ['member'], 'iface': ['iface', 'error', 'bus'],
+            'error': ['iface', 'error', 'bus'], 'bus': ['iface', 'error', 'bus']}
+
+
+def sized(v, style, t, total):
+    """a string of kind v, grammatical except possibly for its length `total`, that contains the fresh element
+    t; for one (v, style, t) the strings of different lengths are prefixes of each other (up to the last character)"""
+    if v == 'path':
+        return '/' + t + 'p' * (total - 1 - len(t))
+    if v == 'member':
+        return t + 'm' * (total - len(t))
+    if style == 'two':
+        return t + '.' + 'b' * (total - len(t) - 1)
+    if style == 'unique':
+        return ':1.' + t + '2' * (total - 3 - len(t))
+    n = total - len(t) - 1
+    fill = ('ee.' * (n // 3 + 1))[:n]
+    if fill.endswith('.'):
+        fill = fill[:-1] + 'z'
+    return t + '.' + fill
+
+
+def present(v, s, k):
+    """one string before all five validators (starting with the k-th) and the constructor roles of its kind"""
+    order = VALIDATORS[k % 5:] + VALIDATORS[:k % 5]
+    return [vstep(r, s) for r in order] + [mstep(c, f, s) for c, f in croles(INTEREST[v])]
+
+
+def neighbour_histories():
+    out = []
+
+    def add(shape, fam, steps):
+        out.append({'shape': shape, 'family': fam, 'steps': steps})
+
+    for v in VALIDATORS:
+        for style in STYLES[v]:
+            fam = '%s/%s' % (v, style)
+            for shape, lens in (('255-256-255', [255, 256, 255, 257, 254, 256, 255]),
+                                ('256-255-256', [256, 255, 256, 254, 257, 255, 256]),
+                                ('grow-and-shrink', [253, 254, 255, 256, 257, 256, 255, 254])):
+                t = fresh()
+                steps = []
+                for k, n in enumerate(lens):
+                    steps += present(v, sized(v, style, t, n), k)
+                add(shape, fam, steps)
+            if v not in ('path', 'member'):          # 253 + one more element: 255 legal, 256 not
+                t = fresh()
+                b = sized(v, style, t, 253)
+                steps = []
+                for k, s in enumerate([b, b + '.c', b + '.cd', b + '.c', b + 'cd', b + 'cde', b + '.c.', b + '.1', b]):
+                    steps += present(v, s, k)
+                add('extend-by-an-element', fam, steps)
+    # short names and their one-edit / one-element extensions, legal and illegal ones following each other
+    t = fresh()
+    s0 = t + '.b'
+    chains = [('iface', [s0, s0 + '.c', s0 + '.1c', s0 + '.', s0 + '..c', s0 + 'c', s0 + '-c', s0 + '.c-d', s0 + ':c',
+                         s0 + ' ', s0[:-1], s0[:-2], '1' + s0, ':' + s0, s0 + '.c', s0])]
+    t = fresh()
+    s0 = ':1.' + t
+    chains.append(('bus', [s0, s0 + '.5', s0 + '.', s0 + '..5', s0 + ':5', s0[1:], s0 + '-', ':' + s0, s0 + '.5', s0]))
+    t = fresh()
+    s0 = '/' + t + '/b'
+    chains.append(('path', [s0, s0 + '/c', s0 + '/', s0 + '//c', s0 + '/1', s0 + '.c', s0 + '-', s0 + ' ', s0[1:],
+                            s0 + '/c', s0]))
+    t = fresh()
+    chains.append(('member', [t, t + 'x', t + '.x', t + '-', t + '1', '1' + t, t + ' ', '', t + 'x', t]))
+    for v, chain in chains:
+        steps = []
+        for k, s in enumerate(chain):
+            steps += present(v, s, k)
+        add('short-extensions', v, steps)
+    return out
+
+
+def random_history(rng):
+    pool = []
+    for _ in range(rng.choice([1, 2, 2, 3])):
+        fam, mk = rng.choice(FAMILIES)
+        s = mk(fresh())
+        pool.append(s)
+        if rng.random() < 0.5:
+            pool.append(mutate(rng, s))
+    pool = _dedup(pool) or ['a.' + fresh()]
+    steps = []
+    for _ in range(rng.randint(8, 30)):
+        s = rng.choice(pool)
+        r = rng.random()
+        if r < 0.45:
+            steps.append(vstep(rng.choice(VALIDATORS), s, rng.choice([None] * 6 + FLAVOURS)))
+        elif r < 0.85:
+            c, f = rng.choice(CTOR_ROLES)
+            steps.append(mstep(c, f, s, rng.choice(EXTRAS) or None, rng.choice([None] * 6 + FLAVOURS)))
+        else:
+            cls = rng.choice(list(FIELDS))
+            a = {}
+            for f in FIELDS[cls]:
+                q = rng.random()
+                a[f] = (None if ((cls, f) in OPTIONAL and q < 0.2) else
+                        rng.choice(pool) if q < 0.6 else DEFAULTS[cls][f])
+            st = {'do': 'm', 'cls': cls, 'args': a}
+            x = rng.choice(EXTRAS)
+            if x:
+                st['extra'] = x
+            steps.append(st)
+    return {'shape': 'random', 'family': 'random', 'steps': steps}
+
+
+def step_line(st):
+    return 'v ' + enc(st['s']) if st['do'] == 'v' else msg_line(st['cls'], st['args'])
+
+
+def judge_step(ctx, marshal, message, stream, st, mline, inp):
+    if st['do'] == 'v':
+        v, s = st['role'], st['s']
+        r = observe(marshal, v, flavoured(marshal, s, st.get('as')))
+        ctx.impl_trace()
+        g = G[v](s)
+        if mline is not None:
+            tok = mline.split()
+            i = VALIDATORS.index(v)
+            if len(tok) != 15:
+                ctx.disagree(stream, inp, mline, r, detail='driver answer malformed')
+            else:
+                if tok[3 * i] != r or tok[3 * i + 1] != r:
+                    ctx.disagree(stream, inp, {'validator': FUNC[v], 'model_isdigitNA_true': tok[3 * i],
+                                               'model_isdigitNA_false': tok[3 * i + 1]}, r)
+                if (tok[3 * i + 2] == '1') != g:
+                    ctx.disagree('grammar-lean-vs-python', show(s), {'grammar': v, 'lean': tok[3 * i + 2]}, g)
+        oracle_validator(ctx, v, s, r, g, inp)
+        ctx.stat('%s:%s:%s' % (stream, FUNC[v], 'accept' if r == 'accept' else 'reject'))
+        return r
+    return judge_message(ctx, marshal, message, st['cls'], st['args'], mline, st.get('extra'), stream=stream,
+                         inp=inp, flav=st.get('as'))
+
+
+def run_histories(ctx, marshal, message, stream, hists):
+    """Every step: S3 against the driver's answer for that call alone (the model has no memory) and S4 against
+    the grammar.  The replay input of a step is the history up to and including it."""
+    lines = list(dict.fromkeys(step_line(st) for h in hists for st in h['steps']))
+    out = ctx.model(lines)
+    mget = dict(zip(lines, out)) if out is not None else {}
+    seen = set()
+    for h in hists:
+        steps = h['steps']
+        for k, st in enumerate(steps):
+            judge_step(ctx, marshal, message, stream, st, mget.get(step_line(st)),
+                       {'kind': 'history', 'steps': steps[:k + 1]})
+            names = [st['s']] if st['do'] == 'v' else [x for x in st['args'].values() if x is not None]
+            later = any(x in seen for x in names)
+            seen.update(names)
+            ctx.case(stream, sample=st, nontrivial=all(nontrivial(x) for x in names))
+            ctx.stat('%s:%s-use' % (stream, 'later' if later else 'first'))
+        ctx.stat('%s:shape=%s' % (stream, h['shape']))
+        ctx.stat('%s:histories' % stream)
+
+
+def _reproduces(ctx, inp, key):
+    """Does a FRESH process report `key` on this replay input alone?  (Only called for reported violations.)"""
+    verif = os.path.dirname(os.path.dirname(os.path.abspath(__file__)))
+    code = ('import sys, json\n'
+            'sys.path.insert(0, %r)\n'
+            'from vlib import ctx as C\n'
+            'C.use_repo(%r)\n'
+            'import harness.c18 as h\n'
+            'c = C.Ctx("C18", "quick", 0, %r)\n'
+            'c.model_available = False\n'
+            'h.replay(c, {"input": json.loads(sys.stdin.read())})\n'
+            'print("KEYS " + json.dumps([v["key"] for v in c.violations]))\n') % (verif, ctx.repo, ctx.repo)
+    try:
+        p = subprocess.run([sys.executable, '-c', code], input=json.dumps(inp).encode('utf-8'),
+                           stdout=subprocess.PIPE, stderr=subprocess.PIPE, timeout=120)
+        for ln in p.stdout.decode('utf-8', 'replace').splitlines():
+            if ln.startswith('KEYS '):
+                return key in json.loads(ln[5:])
+    except Exception:
+        pass
+    return True             # could not tell: leave the exemplar as it is
+
+
+def settle(ctx):
+    """ctx.violation keeps the SMALLEST input per key, and a single call is smaller than a history.  A defect
+    that needs an earlier call does not show when that single call is replayed in a fresh process: for every
+    key that was also seen inside a history, check the single-call exemplar in a fresh process and fall back to
+    the smallest history (steps 0..k) when it does not reproduce."""
+    hist = getattr(ctx, '_c18_hist', {})
+    for v in ctx.violations:
+        h = hist.get(v['key'])
+        if h is None or (isinstance(v['input'], dict) and v['input'].get('kind') == 'history'):
+            continue
+        if not _reproduces(ctx, v['input'], v['key']):
+            v.update(input=h['input'], observed=h['observed'], expected=h['expected'],
+                     what=h['what'] + ' - at the last step of the stored history (the call alone, in a fresh '
+                                      'process, does not show it)')
+            ctx.stat('exemplar-replaced-by-history')
+
+
 # ------------------------------------------------------------------ entry points
 def _dedup(seq):
     seen, out = set(), []
@@ -579,13 +960,23 @@ def run(ctx):
     from txdbus import marshal, message
 
     # past failures first
-    cstr, cmsg = [], []
+    cstr, cmsg, chist = [], [], []
     for name, case in ctx.corpus():
         inp = case.get('input', case)
-        if inp.get('kind') == 'message':
+        if inp.get('kind') == 'history':
+            chist.append({'shape': 'corpus', 'family': name, 'steps': inp['steps']})
+        elif inp.get('kind') == 'message':
             cmsg.append((inp['cls'], inp['args'], inp.get('extra')))
         else:
             cstr.append(inp['s'])
+    if chist:
+        run_histories(ctx, marshal, message, 'role-history', chist)
+
+    # histories before anything else has been validated in this process: later uses of fresh strings
+    n = ctx.scale(quick=150, thorough=4000)
+    run_histories(ctx, marshal, message, 'role-history', role_histories() + [random_history(ctx.rng) for _ in range(n)])
+    run_histories(ctx, marshal, message, 'neighbour-history', neighbour_histories())
+
     if cstr:
         run_strings(ctx, marshal, 'validators-boundary', _dedup(cstr))
     if cmsg:
@@ -614,16 +1005,25 @@ def run(ctx):
                   + [with_length(ctx.rng, v, t) for v in VALIDATORS for t in (255, 256)])
     run_messages(ctx, marshal, message, message_cases(ctx, pool))
     probe_none_path(ctx, message)
+    settle(ctx)
 
 
 def replay(ctx, data):
     from txdbus import marshal, message
     inp = data.get('input', data)
-    if inp.get('kind') == 'message':
+    if inp.get('kind') == 'history':
+        run_histories(ctx, marshal, message, 'role-history', [{'shape': 'replay', 'family': 'replay', 'steps': inp['steps']}])
+    elif inp.get('kind') == 'message':
         line = msg_line(inp['cls'], inp['args'])
         out = ctx.model([line])
-        judge_message(ctx, marshal, message, inp['cls'], inp['args'], out[0] if out else None, inp.get('extra'))
+        judge_message(ctx, marshal, message, inp['cls'], inp['args'], out[0] if out else None, inp.get('extra'),
+                      flav=inp.get('as'))
     else:
         s = inp['s']
         out = ctx.model(['v ' + enc(s)])
-        judge_string(ctx, marshal, 'validators-boundary', s, out[0] if out else None)
+        calls = [k for k in inp.get('calls', []) if k in VALIDATORS]
+        for k in calls:                      # what the string went through before the judged call
+            observe(marshal, k, s)
+        first = [v for v in VALIDATORS if FUNC[v] == inp.get('validator')]
+        order = first + [v for v in VALIDATORS if v not in first]
+        judge_string(ctx, marshal, 'validators-boundary', s, out[0] if out else None, order, earlier=calls)
